@@ -175,6 +175,29 @@ func fieldsAssigned(fn *ssa.Function, isObj func(v ssa.Value) bool, st *types.St
 			}
 		}
 	})
+	// a helper called unconditionally with the object itself (method or function) assigns what it assigns
+	allInstrs(fn, func(in ssa.Instruction) {
+		call, ok := in.(*ssa.Call)
+		if !ok || !unconditional(call.Block()) {
+			return
+		}
+		g := call.Call.StaticCallee()
+		if g == nil || len(g.Blocks) == 0 || g == fn || g.Pkg != fn.Pkg || fieldsAssignedBusy[g] {
+			return
+		}
+		for k, a := range call.Call.Args {
+			if !isObj(a) || k >= len(g.Params) {
+				continue
+			}
+			prm := g.Params[k]
+			fieldsAssignedBusy[g] = true
+			sub := fieldsAssigned(g, func(v ssa.Value) bool { return v == ssa.Value(prm) }, st)
+			delete(fieldsAssignedBusy, g)
+			for f := range sub {
+				got[f] = true
+			}
+		}
+	})
 	// any method called unconditionally on &obj.F that itself assigns every field of F's struct type re-initialises F
 	allInstrs(fn, func(in ssa.Instruction) {
 		call, ok := in.(*ssa.Call)
